@@ -342,7 +342,7 @@ pub fn run_history_t(h: &[Ev], restart_after: usize, sig: &str, tail: &[Ev]) -> 
                 other => panic!("harness: {:?} is not a tail event", other),
             }
         }
-        if !common::close_store(store, Duration::from_secs(20)) {
+        if !common::close_store(store, Duration::from_secs(75)) {
             panic!("harness: offline store did not close");
         }
     }
